@@ -25,7 +25,7 @@ func checkC09(c *Ctx) {
 	reach := c.ConsensusReach()
 	live := c.LiveReach()
 	r.Min("C09.membership", 7)
-	r.Min("C09.sorted", 3)
+	r.Min("C09.sorted", 4)
 	r.Min("C09.nonce", 2)
 	r.Min("C09.freshness-trigger", 4)
 
@@ -92,7 +92,40 @@ func checkC09(c *Ctx) {
 					}
 				}
 			})
-			r.Check(okSort, "C09.sorted", "constructor:"+fname(f), c.pos(a), "the members are sorted before the SignerSetTx is built", "a SignerSetTx is built from members that were not sorted first")
+			// and nothing reads the members before they are sorted (a copy taken earlier keeps the unsorted order)
+			early := ""
+			ana.Instrs(f, func(in ssa.Instruction) {
+				call, ok := in.(*ssa.Call)
+				if !ok || early != "" {
+					return
+				}
+				d, _ := ana.Describe(&call.Call)
+				if !(d.Recv == "ExternalSigners" && d.Name == "Sort") {
+					return
+				}
+				par, ok := call.Call.Args[0].(*ssa.Parameter)
+				if !ok {
+					return
+				}
+				for _, ref := range *par.Referrers() {
+					if ref == ssa.Instruction(call) {
+						continue
+					}
+					if rc, ok := ref.(*ssa.Call); ok {
+						if b, ok := rc.Call.Value.(*ssa.Builtin); ok && (b.Name() == "len" || b.Name() == "cap") {
+							continue
+						}
+					}
+					after := (ref.Block() == call.Block() && ana.InstrIndex(ref) > ana.InstrIndex(call)) || (ref.Block() != call.Block() && call.Block().Dominates(ref.Block()))
+					if !after {
+						early = c.pos(ref)
+					}
+				}
+			})
+			if early != "" {
+				okSort = false
+			}
+			r.Check(okSort, "C09.sorted", "constructor:"+fname(f), c.pos(a), "the members are sorted before the SignerSetTx is built", "a SignerSetTx is built from members that were not sorted first"+map[bool]string{true: " (they are read at " + early + ", before the sort)", false: ""}[early != ""])
 		}
 	}
 	if nLit == 0 {
@@ -138,6 +171,9 @@ func checkC09(c *Ctx) {
 			}
 		})
 	}
+	// the observed set (the members a SignerSetTxExecuted claim reports) is stored as it arrives; it is in
+	// contract order only because hashing a claim sorts its members in place before the claim is packed and stored
+	c.checkObservedSetSorted()
 	// comparator
 	c.checkSignerComparator()
 
@@ -810,4 +846,98 @@ func isZeroValue(v ssa.Value) bool {
 		}
 	}
 	return false
+}
+
+
+// checkObservedSetSorted: either the handler sorts the reported members itself, or (i) ExternalSigners.Hash sorts
+// its own receiver, (ii) SignerSetTxExecutedEvent.Hash hashes the Members field itself, and (iii) the vote function
+// calls Hash on the event before it packs it.
+func (c *Ctx) checkObservedSetSorted() {
+	p, r := c.P, c.R
+	var lit *ssa.Alloc
+	var litFn *ssa.Function
+	for _, f := range sortedFuncs(c.ConsensusReach()) {
+		for _, a := range allocsIn(f) {
+			if n := ana.NamedOf(a.Type()); n == nil || n.Obj().Name() != "SignerSetTx" {
+				continue
+			}
+			fs := ana.FieldStores(a)
+			if len(fs["Signers"]) == 0 {
+				continue
+			}
+			if p.Leaves(fs["Signers"][0], ana.PVOpt{}).HasField("SignerSetTxExecutedEvent.Members") {
+				lit, litFn = a, f
+			}
+		}
+	}
+	if lit == nil {
+		r.Undecided("C09.sorted", "observed", "-", "no stored signer set built from SignerSetTxExecutedEvent.Members found")
+		return
+	}
+	// explicit sort in the handler
+	explicit := false
+	ana.Instrs(litFn, func(in ssa.Instruction) {
+		if call, ok := in.(*ssa.Call); ok {
+			if d, _ := ana.Describe(&call.Call); d.Recv == "ExternalSigners" && d.Name == "Sort" && p.Leaves(call.Call.Args[0], ana.PVOpt{}).HasField("SignerSetTxExecutedEvent.Members") {
+				if call.Block().Dominates(lit.Block()) {
+					explicit = true
+				}
+			}
+		}
+	})
+	if explicit {
+		r.Ok("C09.sorted", "observed", c.pos(lit), "the handler sorts the reported members before storing them")
+		return
+	}
+	okI, okII, okIII := false, false, false
+	if mh := p.Func("mhub2/types.ExternalSigners.Hash"); mh != nil && len(mh.Params) > 0 {
+		ana.Instrs(mh, func(in ssa.Instruction) {
+			if call, ok := in.(*ssa.Call); ok {
+				if d, _ := ana.Describe(&call.Call); d.Recv == "ExternalSigners" && d.Name == "Sort" && call.Call.Args[0] == ssa.Value(mh.Params[0]) {
+					okI = true
+				}
+			}
+		})
+	}
+	if eh := p.Func("mhub2/types.SignerSetTxExecutedEvent.Hash"); eh != nil {
+		ana.Instrs(eh, func(in ssa.Instruction) {
+			if call, ok := in.(*ssa.Call); ok {
+				if d, _ := ana.Describe(&call.Call); d.Recv == "ExternalSigners" && d.Name == "Hash" {
+					if _, path := rootAndPath(call.Call.Args[0]); path == "Members" {
+						okII = true
+					}
+				}
+			}
+		})
+	}
+	// the vote function: PackEvent(event) is dominated by event.Hash()
+	for _, f := range sortedFuncs(c.ConsensusReach()) {
+		var packs []*ssa.Call
+		var hashes []*ssa.Call
+		ana.Instrs(f, func(in ssa.Instruction) {
+			call, ok := in.(*ssa.Call)
+			if !ok || in.Parent() != f {
+				return
+			}
+			d, _ := ana.Describe(&call.Call)
+			if d.Name == "PackEvent" && len(call.Call.Args) == 1 {
+				packs = append(packs, call)
+			}
+			if d.Name == "Hash" && d.Iface && d.Recv == "ExternalEvent" {
+				hashes = append(hashes, call)
+			}
+		})
+		for _, pk := range packs {
+			if !hasEff(c.Effects(f), "store", "Set", "ExternalEventVoteRecordKey") {
+				continue
+			}
+			for _, h := range hashes {
+				if h.Call.Value == pk.Call.Args[0] && (h.Block().Dominates(pk.Block()) && h.Block() != pk.Block() || h.Block() == pk.Block() && ana.InstrIndex(h) < ana.InstrIndex(pk)) {
+					okIII = true
+				}
+			}
+		}
+	}
+	r.Check(okI && okII && okIII, "C09.sorted", "observed", c.pos(lit), "the reported members are in canonical order when stored: hashing the claim sorts them in place before the claim is packed",
+		sprintf("the observed signer set is stored in the order the first reporter sent it: it is not sorted by the handler, and the implicit canonicalisation is broken (members hash sorts its own receiver=%v, claim hash hashes the Members field itself=%v, the vote function hashes the claim before packing it=%v); the contract's checkpoint check fails for a set served in another order", okI, okII, okIII))
 }
